@@ -376,7 +376,7 @@ def merge_partials(parts):
 
 
 def write_evidence(prop, module, tier, seed, merged, wall_s, nshards):
-    d = os.path.join(env.VERIF_ROOT, "evidence")
+    d = os.environ.get("VERIF_EVIDENCE_DIR") or os.path.join(env.VERIF_ROOT, "evidence")
     os.makedirs(d, exist_ok=True)
     samples = []
     for sub, lst in merged["samples"].items():
